@@ -46,6 +46,7 @@ type StmtInfo struct {
 	Table    string
 	Kind     string
 	Keyed    bool
+	Cursor   *RowsObj
 	CollTerm Term // term bound to the collection column ("" when the statement does not restrict it)
 	KeyTerm  Term
 	Writes   bool
